@@ -79,8 +79,16 @@ pub fn parse_xref_stream_and_trailer(lexer: &mut Lexer, resolve: &impl Resolve) 
         xref_stream.info.clone()
     };
 
+    // Decoded here and not through `Stream::data`: that would leave the data in the stream cache under
+    // this object's number, which a later section may give to an ordinary stream (and in an encrypted
+    // file the entry would be made before the decoder exists).
+    let raw = t!(xref_stream.raw_data(resolve));
     let xref_stream = t!(Stream::<XRefInfo>::from_primitive(Primitive::Stream(xref_stream), resolve));
-    let mut data_left = &*t!(xref_stream.data(resolve));
+    let mut data = raw.to_vec();
+    for filter in xref_stream.filters.iter() {
+        data = t!(crate::enc::decode(&data, filter));
+    }
+    let mut data_left = &data[..];
     
     let width = &xref_stream.w;
 
